@@ -2,6 +2,7 @@
 import math
 import os
 import signal
+import contextlib
 import sys
 import time
 import traceback
@@ -110,6 +111,25 @@ def close2(have, want, rtol=1e-8, atol=1e-9):
     if math.isinf(h) or math.isinf(w):
         return h == w
     return abs(h - w) <= atol + rtol * abs(w)
+
+
+@contextlib.contextmanager
+def default_recursion_budget(ctx=None, frames=950):
+    """Run library calls under the interpreter's DEFAULT recursion budget (about 1000 frames) instead of the worker's
+    raised one: size-threshold workloads (long chains, deep nesting) must work for a user who never touched the limit.
+    With ctx given, a RecursionError raised inside ctx.call counts as a violation."""
+    import inspect
+
+    old = sys.getrecursionlimit()
+    sys.setrecursionlimit(len(inspect.stack(0)) + frames)
+    if ctx is not None:
+        ctx.recursion_is_violation = True
+    try:
+        yield
+    finally:
+        sys.setrecursionlimit(old)
+        if ctx is not None:
+            ctx.recursion_is_violation = False
 
 
 class Ctx:
